@@ -4,6 +4,7 @@ import (
 	"bytes"
 	"fmt"
 	"math/big"
+	"math/bits"
 
 	"github.com/bytemare/secp256k1/internal/field"
 	"github.com/bytemare/secp256k1/internal/verif/alpha"
@@ -316,6 +317,70 @@ func wide48(m *big.Int, level int) [][48]byte {
 		}
 
 		out = append(out, b)
+	}
+
+	// high words steered against a fold by c = 2^256 mod m (any word-wise reduction of the top 128 bits multiplies
+	// them by the words of c): for every word cl of c other than 0 and 1, lo(w*cl) at 1, 2, 2^63, 2^64-2^32, 2^64-2,
+	// 2^64-1 (w = t/cl mod 2^64, as far as the 2-adic valuation of cl allows) and hi(w*cl) at its steps
+	// (w = floor(k*2^64/cl) and successor), crossed with the plain patterns, over low words from {0, 1, 2^64-1}
+	{
+		two64 := new(big.Int).Lsh(big.NewInt(1), 64)
+		hiSet := map[uint64]bool{}
+		hi := []uint64{}
+		addHi := func(v uint64) {
+			if !hiSet[v] {
+				hiSet[v] = true
+				hi = append(hi, v)
+			}
+		}
+
+		for _, v := range []uint64{0, 1, 1 << 63, ^uint64(0)} {
+			addHi(v)
+		}
+
+		for _, cw := range ref.Limbs(new(big.Int).Sub(ref.Two256(), m)) {
+			if cw <= 1 {
+				continue
+			}
+
+			addHi(cw)
+			addHi(^cw + 1)
+
+			e := uint(bits.TrailingZeros64(cw))
+			mod := new(big.Int).Lsh(big.NewInt(1), 64-e)
+			inv := new(big.Int).ModInverse(new(big.Int).SetUint64(cw>>e), mod).Uint64()
+
+			for _, t := range []uint64{1, 2, 1 << 63, 0xffffffff00000000, ^uint64(0) - 1, ^uint64(0)} {
+				if t&(1<<e-1) == 0 {
+					addHi((t >> e) * inv & (1<<(64-e) - 1))
+				}
+			}
+
+			for _, k := range []uint64{1, 2, cw - 1, cw >> 1} {
+				q := new(big.Int).Div(new(big.Int).Mul(new(big.Int).SetUint64(k), two64), new(big.Int).SetUint64(cw)).Uint64()
+				addHi(q)
+				addHi(q + 1)
+			}
+		}
+
+		lo := []uint64{0, 1, ^uint64(0)}
+
+		for _, w5 := range hi {
+			for _, w4 := range hi {
+				for t := 0; t < 81; t++ {
+					var b [48]byte
+
+					ws := [6]uint64{lo[t%3], lo[t/3%3], lo[t/9%3], lo[t/27%3], w4, w5}
+					for l := 0; l < 6; l++ {
+						for j := 0; j < 8; j++ {
+							b[47-8*l-j] = byte(ws[l] >> (8 * j))
+						}
+					}
+
+					out = append(out, b)
+				}
+			}
+		}
 	}
 
 	// around multiples of m, and the extremes
